@@ -230,7 +230,7 @@ pub fn gen(rng: &mut Prng, plan: &mut Plan) {
                     s = s.i("incl", incl as i128);
                 }
                 if op == "uniform_u" {
-                    s = s.i("count", rng.range(1, 4) as i128);
+                    s = s.i("count", rng.range(1, 4) as i128).i("be", if rng.chance(1, 2) { 0 } else { rng.range(1, 3) as i128 });
                 }
                 steps.push(s);
             }
@@ -274,7 +274,7 @@ pub fn gen(rng: &mut Prng, plan: &mut Plan) {
                     s = s.i("incl", incl as i128);
                 }
                 if op == "uniform_i" {
-                    s = s.i("count", rng.range(1, 3) as i128);
+                    s = s.i("count", rng.range(1, 3) as i128).i("be", if rng.chance(1, 2) { 0 } else { rng.range(1, 3) as i128 });
                 }
                 steps.push(s);
             }
@@ -294,6 +294,34 @@ pub fn gen(rng: &mut Prng, plan: &mut Plan) {
     let stuck: i128 = if rng.chance(1, 150) { *rng.pick(&[4i128 * 70_000, 4 * 140_001, 4 * 300_000, 4 * 1_100_000, 8 * 1_100_000 + 4]) } else if rng.chance(1, 30) { 4 * rng.range(1, 3000) as i128 } else { 0 };
     plan.cfg = Step::new("cfg").i("fail_at", fail_at).i("stuck", stuck).l32("words", &words);
     plan.steps = steps;
+}
+
+/// `c18long`: one bounded draw behind a stuck-at-ones fault of more than 2^24 rejected candidates (64 MiB of stream
+/// for a bound below 2^32, 128 MiB below 2^64; the prefix is virtual). Seconds per call in a debug build, so this
+/// scenario is only registered for the release harness; everything else is the `c18` executor.
+pub fn gen_long(rng: &mut Prng, plan: &mut Plan) {
+    let wide = rng.chance(1, 3);
+    let bits = if wide { rng.range(33, 64) } else { rng.range(2, 32) };
+    let mut b = RefNat::from_u128(((rng.next_u64() as u128) << 64 | rng.next_u64() as u128) & ((1u128 << bits) - 1) | (1u128 << (bits - 1)));
+    if b == RefNat::one().shl(bits - 1) {
+        b = b.add_small(1); // not a power of two: all-ones candidates must be rejected
+    }
+    let rejections = (1u64 << 24) + rng.below(2000) + if rng.chance(1, 4) { 1 << 23 } else { 0 };
+    let stuck = rejections * if wide { 8 } else { 4 };
+    let mut words: Vec<u32> = Vec::new();
+    script_for_bound(rng, &b, &mut words);
+    for _ in 0..8 {
+        words.push(rng.next_u32());
+    }
+    let step = match rng.below(5) {
+        0 => push_nat(Step::new("below"), "b", &b),
+        1 => push_nat(push_nat(Step::new("urange"), "l", &RefNat::from_u128(7)), "u", &b.add_small(7)),
+        2 => push_nat(push_nat(Step::new("uniform_u"), "l", &RefNat::zero()), "u", &b).i("count", 1).i("be", rng.below(3) as i128),
+        3 => push_int(push_int(Step::new("irange"), "l", &RefInt::new(true, RefNat::from_u128(5))), "u", &RefInt::new(false, b.sub(&RefNat::from_u128(5)).unwrap_or(RefNat::one()))),
+        _ => push_int(push_int(Step::new("sample_single_i"), "l", &RefInt::new(true, b.clone())), "u", &RefInt::new(false, RefNat::zero())),
+    };
+    plan.cfg = Step::new("cfg").i("fail_at", -1).i("stuck", stuck as i128).l32("words", &words);
+    plan.steps = vec![step];
 }
 
 // ---- reference model of the documented stream function ----------------------------------------
@@ -593,6 +621,19 @@ pub fn exec(plan: &Plan) -> RunResult {
                             }
                         }
                         _ => {
+                            let be = s.int("be");
+                            if be > 0 {
+                                // the back-end sampler used directly as a long-lived value; `clone_from` into a sampler that
+                                // was built for another (narrower / wider) range must leave no trace of that range
+                                let d = if incl { UniformBigUint::new_inclusive(&l, &u) } else { UniformBigUint::new(&l, &u) };
+                                let mut d2 = match be {
+                                    1 => d.clone(),
+                                    2 => UniformBigUint::new(&BigUint::from(0u8), &BigUint::from(2u8)),
+                                    _ => UniformBigUint::new_inclusive(&l, &((&u + 1u8) << (200 + (count as u32) * 64))),
+                                };
+                                d2.clone_from(&d);
+                                return Got::U((0..count).map(|i| if i % 2 == 0 { d2.sample(r) } else { d.sample(r) }).collect());
+                            }
                             let d = if incl {
                                 Uniform::new_inclusive(&l, &u)
                             } else {
@@ -624,6 +665,17 @@ pub fn exec(plan: &Plan) -> RunResult {
                             }
                         }
                         _ => {
+                            let be = s.int("be");
+                            if be > 0 {
+                                let d = if incl { UniformBigInt::new_inclusive(&l, &u) } else { UniformBigInt::new(&l, &u) };
+                                let mut d2 = match be {
+                                    1 => d.clone(),
+                                    2 => UniformBigInt::new(&BigInt::from(-1i8), &BigInt::from(1u8)),
+                                    _ => UniformBigInt::new_inclusive(&(&l - (BigInt::from(1u8) << (200 + (count as u32) * 64))), &u),
+                                };
+                                d2.clone_from(&d);
+                                return Got::I((0..count).map(|i| if i % 2 == 0 { d2.sample(r) } else { d.sample(r) }).collect());
+                            }
                             let d = if incl {
                                 Uniform::new_inclusive(&l, &u)
                             } else {
